@@ -65,6 +65,13 @@ Lemma map_and_structure_have_no_handler :
   rows_of (s2p "deserialize_map") = [] /\ rows_of (s2p "deserialize_structure_internal") = [].
 Proof. split; vm_compute; reflexivity. Qed.
 
-(* deserialize_single_field: the only handler is the one around StructureReference (outside the model's fragment) *)
-Lemma single_field_one_handler : length (rows_of (s2p "deserialize_single_field")) = 1%nat.
-Proof. vm_compute. reflexivity. Qed.
+(* deserialize_single_field: the handler around StructureReference (outside the model's fragment), and the one
+   around SerializableField.deserialize, which catches exactly ValueError (InvalidStructureErr derives from it)
+   and raises ValueError again, with the field's name -- the model's [rewrap_ve] *)
+Lemma single_field_handlers :
+  exists r1 r2, rows_of (s2p "deserialize_single_field") = [r1; r2] /\
+    forall x, row_catches r2 x = is_ve x.
+Proof.
+  eexists. eexists. split; [vm_compute; reflexivity|].
+  intro x. destruct x; vm_compute; reflexivity.
+Qed.
